@@ -9,6 +9,7 @@ fail=0; k=0
 for d in seeded/*/; do
   n=$(basename $d)
   k=$((k+1)); [ $((k % SN)) = "$SI" ] || continue
+  if grep -q '"not_reached_by_the_harness": true' $d/meta.json 2>/dev/null; then echo "$n skipped (recorded miss: needs a configuration the harness cannot construct, see DESIGN.md)"; continue; fi
   if grep -q '"not_observable_on_a_chain": true' $d/meta.json 2>/dev/null; then echo "$n skipped (not observable under transaction semantics)"; continue; fi
   id=$(python3 -c "
 import json;m=json.load(open('$d/meta.json'));c=m.get('check_exit_codes') or {}
